@@ -325,3 +325,19 @@ Proof.
   intros Hl. destruct (load_single_root C cdig t h0 Hl) as [Hr Hp].
   exact (create_flat_exact Hb matches C cdig ser h0 Hr Hp t req no_dh ip ifl Hl).
 Qed.
+
+(* a history without renames has an empty rename map *)
+Lemma gen_renames_nil (h : lhist) (g : gen) : (forall r, In r (g_records g) -> r_prev r = None) -> gen_renames h g = [].
+Proof.
+  unfold gen_renames. induction (g_records g) as [|r rs IH]; intros H; [reflexivity|]. cbn [flat_map].
+  rewrite (H r (or_introl eq_refl)). apply IH. intros r' Hr'. apply H. right. exact Hr'.
+Qed.
+Lemma hist_rename_map_nil (h : lhist) :
+  (forall g r, In g (lh_gens h) -> In r (g_records g) -> r_prev r = None) -> hist_rename_map h = [].
+Proof.
+  unfold hist_rename_map. intros H.
+  assert (Hgen : forall gens, (forall g, In g gens -> gen_renames h g = []) -> fold_left (rename_step h) gens [] = []).
+  { induction gens as [|g gens IH]; intros Hg; [reflexivity|]. cbn [fold_left]. unfold rename_step at 2. rewrite (Hg g (or_introl eq_refl)).
+    cbn [map app]. apply IH. intros g' Hg'. apply Hg. right. exact Hg'. }
+  apply Hgen. intros g Hg. apply gen_renames_nil. intros r Hr. apply (H g r Hg Hr).
+Qed.
